@@ -127,44 +127,42 @@ Print Assumptions C04_progress_partial.
 (* Timeout i, Expire side.                                                      *)
 
 (* (a) Safety.  Every message handed to B's application has the token, code and
-   options of an exchange A's application started and carries exactly its body
-   (or is the body-less request that restarts a block-wise response to a POST/PUT:
-   the finding, see C04_exchange_safety_unrestricted_refuted); every message handed
-   to A's application is body-less (4.08 / 2.31) or has the code, options and ETag
-   of one version v <= number of changes of the resource of its exchange and exactly
-   that version's body.  Never a partial, extended or mixed body. *)
+   options of an exchange A's application started and carries exactly its body (or is
+   a body-less 4.08); every message handed to A's application is body-less (4.08 /
+   2.31) or has the code, options and ETag of one version v <= number of changes of
+   the resource of its exchange and exactly that version's body.  Never a partial,
+   extended or mixed body.  REPAIRED finding 3 (notes/C04.md): the statement used to
+   carry the exception "or is the body-less request that restarts a block-wise response
+   to a POST/PUT" and was refuted without it; since the client refuses to fetch the
+   response of a request other than GET/DELETE again from block 0, it holds without
+   exception and without a hypothesis on the size of the responses of uploads. *)
 Theorem C04_exchange_safety : forall c, cfg_wf c -> forall es, Forall (bump_ok c) es ->
   Forall (mob_ok c (bumps es)) (run c (init c) es).
 Proof. exact exchange_safety. Qed.
 Print Assumptions C04_exchange_safety.
 
 (* ... the same in the terms of the specification: class 0 of Spec.delivery_class for
-   every delivery of the model's trace, except that restart request *)
+   EVERY delivery of the model's trace of every script *)
 Theorem C04_exchange_safety_spec : forall c, cfg_wf c -> forall es, Forall (bump_ok c) es ->
-  Forall (fun o => Forall (fun d => delivery_class c es (o_side o) d = 0%N \/ (o_side o = 1 /\ restart_pm d)) (o_deliv o))
-         (model_obs c es).
+  Forall (fun o => Forall (fun d => delivery_class c es (o_side o) d = 0%N) (o_deliv o)) (model_obs c es).
 Proof. exact exchange_safety_spec. Qed.
 Print Assumptions C04_exchange_safety_spec.
 
-(* ... and without exception when no response to a POST/PUT is block-wise (every
-   version of the resource behind an upload exchange is shorter than 16 bytes) *)
-Theorem C04_exchange_safety_exact : forall c, cfg_wf c -> forall es, Forall (bump_ok c) es ->
-  small_upload_responses c es ->
-  Forall (fun o => Forall (fun d => delivery_class c es (o_side o) d = 0%N) (o_deliv o)) (model_obs c es).
-Proof. exact exchange_safety_spec_exact. Qed.
-Print Assumptions C04_exchange_safety_exact.
-
-(* The full-strength statement (no hypothesis on the responses of uploads) is FALSE of
-   the faithful model and of the code: two witnesses (a well-formed configuration and a
-   script each) on which the specification reports class 1, body-differs-from-supplied.
-   Replayed on the Go code (harness descriptor and a Go test, see notes/C04.md). *)
-Theorem C04_exchange_safety_unrestricted_refuted :
+(* The two histories on which the unrepaired code (and its faithful model) violated the
+   property (c04_class = 1: a body-less POST handed to B's application; they are canonical
+   cases of the correspondence run, see notes/C04.md): on the repaired model the client
+   refuses the restart at that event (error callback, 4.08, nothing handed over, no
+   reassembly entry left), B's application is only ever handed the 5-byte body A's
+   application supplied, and the whole property holds. *)
+Theorem C04_restart_refused_on_witnesses :
   (cfg_wf refute_cfg1 /\ Forall (bump_ok refute_cfg1) refute_es1 /\
-   c04_class refute_cfg1 refute_es1 (model_obs refute_cfg1 refute_es1) = 1%N) /\
+   c04_class refute_cfg1 refute_es1 (model_obs refute_cfg1 refute_es1) = 0%N /\
+   refused_at (model_obs refute_cfg1 refute_es1) 8 /\ no_empty_request (model_obs refute_cfg1 refute_es1)) /\
   (cfg_wf refute_cfg2 /\ Forall (bump_ok refute_cfg2) refute_es2 /\
-   c04_class refute_cfg2 refute_es2 (model_obs refute_cfg2 refute_es2) = 1%N).
-Proof. exact exchange_safety_unrestricted_refuted. Qed.
-Print Assumptions C04_exchange_safety_unrestricted_refuted.
+   c04_class refute_cfg2 refute_es2 (model_obs refute_cfg2 refute_es2) = 0%N /\
+   refused_at (model_obs refute_cfg2 refute_es2) 7 /\ no_empty_request (model_obs refute_cfg2 refute_es2)).
+Proof. exact restart_refused_on_witnesses. Qed.
+Print Assumptions C04_restart_refused_on_witnesses.
 
 (* (b) Exactly once.  At either application and for every token, the number of bodies
    handed over never exceeds the number of arrivals of a first message of a transfer
@@ -193,7 +191,7 @@ Print Assumptions C04_once_potential.
    preserved, known token, a Do that returns ok got its response, no panic / hang mark)
    on the model's trace of EVERY script. *)
 Theorem C04_exchange_ok : forall c, cfg_wf c -> forall es, Forall (bump_ok c) es ->
-  small_upload_responses c es -> c04_ok c es (model_obs c es) = true.
+  c04_ok c es (model_obs c es) = true.
 Proof. exact exchange_c04_ok. Qed.
 Print Assumptions C04_exchange_ok.
 
@@ -469,7 +467,7 @@ Definition ex2_es : list ev :=
    Deliver 0; Deliver 0; Deliver 0; Deliver 0; Deliver 0; Deliver 0; Deliver 0; Deliver 0; Deliver 0; Deliver 0; Replay 9; Deliver 0;
    Deliver 0; Timeout 1; Expire false; Expire true]%nat.
 Example C04_exchange_nonvacuous :
-  cfg_wf ex2_cfg /\ Forall (bump_ok ex2_cfg) ex2_es /\ small_upload_responses ex2_cfg ex2_es /\
+  cfg_wf ex2_cfg /\ Forall (bump_ok ex2_cfg) ex2_es /\
   c04_ok ex2_cfg ex2_es (model_obs ex2_cfg ex2_es) = true /\
   (* the bodies handed over: (side, [(token, length)]) *)
   map (fun o => (o_side o, map (fun d => (ptok d, plen d)) (o_deliv o)))
@@ -484,10 +482,6 @@ Proof.
     - intros r [<-|[<-|[]]]; cbn; lia. }
   assert (Hb : Forall (bump_ok ex2_cfg) ex2_es).
   { repeat (constructor; try exact I). cbn. intros r E. injection E as <-. reflexivity. }
-  assert (Hs : small_upload_responses ex2_cfg ex2_es).
-  { intros x r v [<-|[<-|[]]] Hup Hr Hv; [|discriminate Hup].
-    cbn in Hr. injection Hr as <-. cbn [xpath] in Hv. replace (bumps ex2_es 0) with 0 in Hv by (vm_compute; reflexivity).
-    assert (v = 0) by lia. subst v. vm_compute. reflexivity. }
-  split; [exact Hwf|]. split; [exact Hb|]. split; [exact Hs|]. split; [apply C04_exchange_ok; assumption|].
+  split; [exact Hwf|]. split; [exact Hb|]. split; [apply C04_exchange_ok; assumption|].
   vm_compute. reflexivity.
 Qed.
